@@ -52,14 +52,60 @@ def expected(rec, lines, variant):
     return exp
 
 
+BASE = ["--no-config", "--color", "never", "-j1", "-n", "--no-heading"]
+
+
+def args_for(r, v, f_lf, f_crlf):
+    args = list(BASE)
+    if v == "only":
+        args += ["-o"]
+    if v == "column":
+        args += ["--column"]
+    if v == "ctx":
+        args += ["-C1"]
+    if v == "crlf":
+        args += ["--crlf"]
+    return args + ["--replace=" + rr.tpl_bytes(r["tpl"]).decode()] + rr.opt_flags(r["o"]) + ["-e", rr.render(r["u"])] + [f_crlf if v == "crlf" else f_lf]
+
+
+def judge_one(r, lines, v, rc, so, se):
+    got = numbered(so)
+    if rc not in (0, 1):
+        return "rg failed rc=%d: %s" % (rc, se.decode("utf8", "replace")[:200])
+    if v == "ctx":
+        # selected (non-matching) lines must be printed unaltered; context lines may or may not be replaced
+        bylno = {n: (sep, t) for n, sep, t in got}
+        for k, (lr, content) in enumerate(zip(r["lines"], lines), 1):
+            orig = rr.sym_bytes(content)
+            if not judged(r, content):
+                continue
+            if lr["sel"]:
+                if bylno.get(k) != (b":", orig):
+                    return "line %d has no match but was not printed unaltered: %r" % (k, bylno.get(k))
+            elif k in bylno:
+                sep, t = bylno[k]
+                if sep != b"-" or t not in (orig, rr.items_bytes(lr["r"])):
+                    return "context line %d printed as %r" % (k, t)
+        return None
+    exp = expected(r, lines, {"plain": "plain", "only": "only", "column": "column", "crlf": "plain"}[v])
+    if v == "crlf":
+        exp = [(n, s, t + b"\r") for n, s, t in exp]
+    skip = set(k for k, content in enumerate(lines, 1) if not judged(r, content))
+    got = [g for g in got if g[0] not in skip]
+    if got != exp:
+        first = next((k for k, (a, b) in enumerate(zip(got, exp)) if a != b), min(len(got), len(exp)))
+        return {"first_difference_at_record": first, "got": repr(got[first:first + 2]), "expected": repr(exp[first:first + 2])}
+    return None
+
+
 def main(tier):
     chk = vlib.Check("C19", tier)
     chk.rule = ("each (pattern, options, template) scenario is evaluated on the whole catalogue of line contents (all contents of length <= 3 "
-                "over {a,b,space,e-acute} plus special lines) and replayed as rg -r, -o -r, --column -r, --crlf -r and -v -C1 -r. "
+                "(4 in the thorough tier) over {a,b,space,e-acute} plus special lines) and replayed as rg -r, -o -r, --column -r, --crlf -r and -v -C1 -r. "
                 "Non-trivial: the template contains a group reference and some line has a match whose expansion differs from the match; "
                 "distinct by (pattern, options, template).")
     chk.assumptions = ["regex semantics as in specs/common/RegexSem.tla", "bounds: specs/regex/MCPrinter.tla"]
-    res = vlib.tlc("regex/MCPrinter", "C19_quick" if tier == "quick" else "C19_deep", workers=12, timeout=3600)
+    res = vlib.tlc("regex/MCPrinter", "C19_quick" if tier == "quick" else "C19_deep", workers=12, timeout=7200, xmx="16g")
     if res.rc != 0:
         raise vlib.ToolError("TLC failed:\n" + res.tail(40))
     chk.add_tlc(res)
@@ -71,10 +117,7 @@ def main(tier):
         f_lf = sc.write("in_lf", b"\n".join(rr.sym_bytes(l) for l in lines) + b"\n")
         f_crlf = sc.write("in_crlf", b"\r\n".join(rr.sym_bytes(l) for l in lines) + b"\r\n")
         jobs, meta = [], []
-        base = ["--no-config", "--color", "never", "-j1", "-n", "--no-heading"]
         for i, r in enumerate(recs):
-            pa = rr.opt_flags(r["o"]) + ["-e", rr.render(r["u"])]
-            tpl = rr.tpl_bytes(r["tpl"]).decode()
             variants = ["plain"]
             if not r["o"]["inv"]:
                 variants += ["only", "column"]
@@ -83,56 +126,18 @@ def main(tier):
             else:
                 variants += ["ctx"]
             for v in variants:
-                args = list(base)
-                if v == "only":
-                    args += ["-o"]
-                if v == "column":
-                    args += ["--column"]
-                if v == "ctx":
-                    args += ["-C1"]
-                if v == "crlf":
-                    args += ["--crlf"]
-                args += ["--replace=" + tpl] + pa + [f_crlf if v == "crlf" else f_lf]
-                jobs.append({"args": args})
+                jobs.append({"args": args_for(r, v, f_lf, f_crlf)})
                 meta.append((i, v))
         outs = rgrun.run_many(jobs)
         chk.evaluations += len(jobs)
         for (i, v), (rc, so, se) in zip(meta, outs):
             r = recs[i]
-            got = numbered(so)
-            why = None
-            if rc not in (0, 1):
-                why = "rg failed rc=%d: %s" % (rc, se.decode("utf8", "replace")[:200])
-            elif v == "ctx":
-                # selected (non-matching) lines must be printed unaltered; context lines may or may not be replaced
-                bylno = {n: (sep, t) for n, sep, t in got}
-                for k, (lr, content) in enumerate(zip(r["lines"], lines), 1):
-                    orig = rr.sym_bytes(content)
-                    if not judged(r, content):
-                        continue
-                    if lr["sel"]:
-                        if bylno.get(k) != (b":", orig):
-                            why = "line %d has no match but was not printed unaltered: %r" % (k, bylno.get(k))
-                            break
-                    elif k in bylno:
-                        sep, t = bylno[k]
-                        if sep != b"-" or t not in (orig, rr.items_bytes(lr["r"])):
-                            why = "context line %d printed as %r" % (k, t)
-                            break
-            else:
-                exp = expected(r, lines, {"plain": "plain", "only": "only", "column": "column", "crlf": "plain"}[v])
-                if v == "crlf":
-                    exp = [(n, s, t + b"\r") for n, s, t in exp]
-                skip = set(k for k, content in enumerate(lines, 1) if not judged(r, content))
-                got = [g for g in got if g[0] not in skip]
-                if got != exp:
-                    first = next((k for k, (a, b) in enumerate(zip(got, exp)) if a != b), min(len(got), len(exp)))
-                    why = {"first_difference_at_record": first, "got": repr(got[first:first + 2]), "expected": repr(exp[first:first + 2])}
+            why = judge_one(r, lines, v, rc, so, se)
             if why:
                 sig = {"variant": v, "opts": sorted(k for k, val in r["o"].items() if val), "pattern": rr.render(r["u"]),
                        "tpl": rr.tpl_bytes(r["tpl"]).decode()}
-                chk.violation(sig, {"why": why, "scenario": {"u": r["u"], "o": r["o"], "tpl": r["tpl"]}, "args": jobs[0]["args"][:0],
-                                    "variant": v})
+                chk.violation(sig, {"why": why, "scenario": r, "catalogue": lines, "variant": v,
+                                    "args": args_for(r, v, "<catalogue, LF>", "<catalogue, CRLF>")})
             else:
                 chk.validated += 1
                 if 1 in r["tpl"] and any(lr["sel"] and lr["m"] for lr in r["lines"]):
@@ -147,8 +152,22 @@ def main(tier):
 
 
 def replay(path):
+    """Re-run the recorded scenario (pattern, options, template, variant) on the recorded catalogue; the expectation is the
+    one TLC computed when the replay file was written."""
     rec = json.load(open(path))
-    print(json.dumps(rec["sig"]))
-    print("re-run `bin/check C19` to re-evaluate (the scenario is regenerated from the spec)")
-    chk_rc = main("quick")
-    return chk_rc
+    r, lines, v = rec["record"]["scenario"], rec["record"]["catalogue"], rec["record"]["variant"]
+    vlib.build_rg()
+    sc = rgrun.Scratch("c19r")
+    try:
+        f_lf = sc.write("in_lf", b"\n".join(rr.sym_bytes(l) for l in lines) + b"\n")
+        f_crlf = sc.write("in_crlf", b"\r\n".join(rr.sym_bytes(l) for l in lines) + b"\r\n")
+        rc, so, se = rgrun.run_many([{"args": args_for(r, v, f_lf, f_crlf)}])[0]
+    finally:
+        sc.close()
+    why = judge_one(r, lines, v, rc, so, se)
+    print(json.dumps({"args": rec["record"]["args"], "why_now": why}, indent=1))
+    if why:
+        print("VIOLATION property=C19 replay=%s" % path)
+        return 1
+    print("replay: property holds on this scenario now")
+    return 0
